@@ -54,6 +54,8 @@ try:
                 break
 finally:
     sh("git -C /repo checkout -- .")
+    for t in ("tr_lexer", "tr_parser_tables", "tr_generator_tables", "tr_ast", "tr_state"):
+        sh(f"/venv/bin/python /verif/translator/{t}.py /verif/coq/gen")      # gen/ follows the restored tree again
 meta["checks"] = results
 meta["detected_by"] = [c for c, r in results.items() if r["exit"] == 1]
 meta["what_ran"] = [f"./check {c} --tier quick (with the patch applied to /repo, undone afterwards)" for c in checks]
